@@ -48,6 +48,7 @@ func cmdCheck(args []string) int {
 	noev := fs.Bool("noevidence", false, "do not write evidence")
 	timeout := fs.Int("timeout", 0, "per-obligation timeout seconds")
 	obsel := fs.String("ob", "", "only obligations whose name contains this string")
+	covers := fs.Bool("covers", false, "diagnostic: report for every return whether it is reachable under the assumptions")
 	noinc := fs.Bool("noinc", false, "skip the incremental pre-pass")
 	noreplay := fs.Bool("noreplay", false, "do not search for and replay counterexamples")
 	fs.Parse(args)
@@ -133,7 +134,7 @@ func cmdCheck(args []string) int {
 			continue
 		}
 		t := translateFunc(eng, fn, ct)
-		fv := &funcVC{Name: eng.shortName(name), Items: t.items, Errs: t.errs, RetReach: t.retBlocks, tr: t}
+		fv := &funcVC{Name: eng.shortName(name), Items: t.items, Errs: t.errs, RetReach: t.retBlocks, RetPos: t.retPos, tr: t}
 		if len(t.errs) > 0 {
 			// The contract no longer binds to the code (new loop without invariant, renamed loop variable,
 			// call without contract, construct outside the subset): the obligations of this function that
@@ -182,6 +183,9 @@ func cmdCheck(args []string) int {
 		for _, f := range old {
 			os.Remove(f)
 		}
+	}
+	if *covers {
+		coverEach(eng, fvs, opt)
 	}
 	vac, nchecked := coverAll(eng, fvs, opt)
 	for _, v := range vac {
